@@ -430,8 +430,7 @@ def norm_path(p):
     prev = None
     while prev != p:
         prev = p
-        p = re.sub(r"::<[^<>]*>", "", p)
-        p = re.sub(r"<[^<>]*>", "", p) if "::<" not in p and False else p
+        p = re.sub(r"::<(?![^<>]* as )[^<>]*>", "", p)
     return p
 
 
